@@ -301,6 +301,7 @@ func runC04(c *core.Ctx) {
 	c.Rule("C04.lookup", "A3: lookupEvaluationFn indexes evaluationFuncs with operationKey{operator: n.operator, leftType: n.leftType, rightType: n.rightType}; Type() of a dynamic node looks binaryConstantTypes up with the same three fields and never stores constReturnType")
 	c.Rule("C04.sigcheck", "A2: in EvalPredicate and expression.Eval the Type(scope) call precedes every Eval* call and its error is returned")
 	c.Rule("C04.boolspec", "A1: EvalBinaryNode.EvalBool re-derives the operand types for the point (evaluateDynamicNode on the node's own operands) exactly when an operand is dynamic — the node's own IsDynamic() is false for every comparison, whose result type is constant — and evaluates the specialised function otherwise")
+	c.Rule("C04.refguard", "A1: no implicit coercion at the leaves: every Eval<Kind> of EvalReferenceNode returns a value with a nil error only when the value bound to the reference was asserted to be exactly the Go type of <Kind> (the identifier returned is bound by a type assertion / single-type switch case to the method's own result type, unconverted); any other dynamic type ends in the type-guard error that lets the parent re-specialise")
 	c.Rule("C04.guards", "A1: EvalBinaryNode.Eval{Bool,Int,Float,String,Duration} return the container field of the requested kind only under that kind's flag, else an error")
 
 	pkg := c.P.Pkg("tick/stateful")
@@ -471,6 +472,7 @@ func runC04(c *core.Ctx) {
 	c04SigCheck(c)
 	c04BoolSpec(c, pkg)
 	ruleCopyReset(c, "C04.copyreset")
+	c04RefGuard(c, pkg)
 	_ = info
 }
 
@@ -1097,4 +1099,72 @@ func c04Arity(c *core.Ctx, pkg *packages.Package) {
 	} else if good {
 		c.Fail("C04.arity", "EvalFunctionNode.Type", fn.Decl.Pos(), "the arity guard or the success path was not found (guard %v, success %v)", seenErr, seenOK)
 	}
+}
+
+// c04RefGuard: the leaves do not coerce. EvalBinaryNode relies on the guard failure of a reference whose value changed type to
+// re-specialise; a leaf that converts (int64 → float64) instead answers with the semantics of whatever type an earlier point had.
+func c04RefGuard(c *core.Ctx, pkg *packages.Package) {
+	info := pkg.TypesInfo
+	n := 0
+	for _, f := range core.AllFuncs(pkg) {
+		if core.RecvName(f.Decl) != "EvalReferenceNode" || !strings.HasPrefix(f.Decl.Name.Name, "Eval") || f.Decl.Type.Results == nil || len(f.Decl.Type.Results.List) != 2 {
+			continue
+		}
+		resT := info.TypeOf(f.Decl.Type.Results.List[0].Type)
+		if resT == nil {
+			continue
+		}
+		// identifiers bound by an assertion to exactly the result type
+		asserted := map[types.Object]bool{}
+		ast.Inspect(f.Decl.Body, func(nd ast.Node) bool {
+			switch x := nd.(type) {
+			case *ast.AssignStmt:
+				if len(x.Rhs) == 1 {
+					if ta, ok := ast.Unparen(x.Rhs[0]).(*ast.TypeAssertExpr); ok && ta.Type != nil && types.Identical(info.TypeOf(ta.Type), resT) {
+						if id, ok := x.Lhs[0].(*ast.Ident); ok {
+							if o := info.Defs[id]; o != nil {
+								asserted[o] = true
+							}
+						}
+					}
+				}
+			case *ast.TypeSwitchStmt:
+				for _, cl := range x.Body.List {
+					cc := cl.(*ast.CaseClause)
+					if len(cc.List) == 1 && types.Identical(info.TypeOf(cc.List[0]), resT) {
+						if o := info.Implicits[cc]; o != nil {
+							asserted[o] = true
+						}
+					}
+				}
+			}
+			return true
+		})
+		cons := "EvalReferenceNode." + f.Decl.Name.Name
+		good, succ := true, 0
+		ast.Inspect(f.Decl.Body, func(nd ast.Node) bool {
+			if _, ok := nd.(*ast.FuncLit); ok {
+				return false
+			}
+			ret, ok := nd.(*ast.ReturnStmt)
+			if !ok || len(ret.Results) != 2 || !an.IsNil(info, ret.Results[1]) {
+				return true
+			}
+			succ++
+			id, ok := ast.Unparen(ret.Results[0]).(*ast.Ident)
+			if !ok || !asserted[info.Uses[id]] {
+				good = false
+				c.Fail("C04.refguard", cons, ret.Pos(), "%s returns %s with a nil error although that value was not asserted to be exactly %s: a reference whose value has another dynamic type is coerced instead of failing its type guard, so a binary node specialised by an earlier point keeps that point's semantics (an int field divided with float division after a float point) and the answer for a point depends on earlier points", cons, types.ExprString(ret.Results[0]), types.TypeString(resT, types.RelativeTo(pkg.Types)))
+			}
+			return true
+		})
+		if succ == 0 {
+			continue // EvalMissing: never succeeds
+		}
+		n++
+		if good {
+			c.Ok("C04.refguard", cons)
+		}
+	}
+	c.Floor("C04.refguard", "Eval<Kind> methods of EvalReferenceNode with a success return", n, 7)
 }
